@@ -193,7 +193,7 @@ class Interp(Engine):
             return
         if s.orelse:
             raise Undecided('for-else over a symbolic range')
-        self.symbolic_loop(s.target, s.body, plan[1], plan[2], env)
+        self.symbolic_loop(s.target, s.body, plan[1], plan[2], env, src=it if isinstance(it, SeqV) else None)
 
     def st_While(self, s, env):
         for _ in range(64):
@@ -344,6 +344,16 @@ class Interp(Engine):
             base.d[idx] = v
             return
         if isinstance(base, SeqV):
+            lp = self.loops[-1] if self.loops else None
+            if lp is not None and getattr(lp, 'elem_obj', None) is base and isinstance(getattr(lp, 'elem_src', None), SeqV) \
+                    and base.items is not None and isinstance(idx, int):
+                # `for x in X: x[b] = v`: element i of X is replaced by a copy with item b set (inner lists not shared)
+                if getattr(lp.elem_src, 'shared_elems', False):
+                    raise Undecided('store into a loop element whose list may be shared with a shallow copy')
+                base.items[idx] = v
+                self.loops[-1].effects.append(('setitem', lp.elem_src, SV(lp.idx, 'int'),
+                                               SeqV(items=list(base.items), kind=base.kind, esort='val')))
+                return
             if self.is_outer(base):
                 self.loops[-1].effects.append(('setitem', base, idx, v))
                 return
@@ -511,7 +521,7 @@ class Interp(Engine):
             return ('symbolic', self.as_int(n), lambda i: self.app('getitem', [it, SV(i, 'int')]))
         raise Undecided(f'iteration over {it!r}')
 
-    def symbolic_loop(self, target, body, n, elem, env, comp=None):
+    def symbolic_loop(self, target, body, n, elem, env, comp=None, src=None):
         """map/fold summarisation of `for target in <n items>: body` at a Skolem index.
 
         comp: for comprehensions, (elt_node, cond_nodes) -- returns the resulting SeqV instead."""
@@ -550,7 +560,9 @@ class Interp(Engine):
             outcome = 'normal'
             result = None
             try:
-                self.assign(target, elem(i), env2)
+                ev0 = elem(i)
+                loop.elem_obj, loop.elem_src = (ev0, src) if isinstance(ev0, SeqV) else (None, None)
+                self.assign(target, ev0, env2)
                 if comp is None:
                     try:
                         self.exec_block(body, env2)
